@@ -334,7 +334,21 @@ def _runtime_cumsum(
     **kwargs: Any,
 ) -> jax.Array:
     if rest:
-        raise TypeError("jnp.cumsum expects a single positional argument")
+        # jnp.cumsum(a, axis, dtype, out) is the library's own positional form and
+        # this replacement stays installed after conversion: keep it working.
+        if len(rest) > 3:
+            raise TypeError(
+                "jnp.cumsum takes at most 4 positional arguments "
+                f"({1 + len(rest)} given)"
+            )
+        given = dict(zip(("axis", "dtype", "out"), rest))
+        if ("axis" in given and axis is not None) or (
+            "dtype" in given and dtype is not None
+        ):
+            raise TypeError("jnp.cumsum got multiple values for an argument")
+        axis = given.get("axis", axis)
+        dtype = given.get("dtype", dtype)
+        out = given.get("out", out)
     if out is not None:
         raise NotImplementedError("jnp.cumsum with 'out' is not supported")
     if method is not None:
